@@ -126,6 +126,8 @@ def plan(tier, seed):
         (corner("unit8", prefix=XYS, qubits=3, name="xy-slm"), A.render(g="m", l=None, g2="n", eom=False), 3),
         (corner("real", prefix=A.GG, qubits=2, name="real-two-globals"), A.render(l=None, g2="h"), 3),
         (corner("real", prefix=A.LL, qubits=2, name="real-two-locals"), A.two_locals(), 3),
+        # channel declaration order matters to the per-atom merge: DMM configured before the channels
+        (corner("unit8", prefix=A.DG, qubits=3, name="unit8-dmm-first"), A.render(l="r", dmm="dmm_0", eom=False), 3),
     ]
     if tier == "thorough":
         worlds = [(w, a, d + 1) for w, a, d in worlds]
